@@ -11,6 +11,7 @@ from prop import SchedProp  # noqa: E402
 class C02(SchedProp):
     id = 'C02'
     kinds = ('any', 'any', 'complete')
+    gen_opts = {'late': 0.2}
     props_modules = ['CylcModel.Props.C02']
     theorems = [
         'CylcModel.C02.no_double_submit',
@@ -18,21 +19,27 @@ class C02(SchedProp):
         'CylcModel.C02.retry_counters_bounded',
         'CylcModel.C02.final_output_only_when_exhausted',
         'CylcModel.C02.final_children_only_after_completion',
+        'CylcModel.C02.retry_bound_states',
+        'CylcModel.C02.retry_bound',
         'CylcModel.C02.retry_automaton_bound',
     ]
     statement_note = (
-        'proof over the Sched model (v1, intervention-free; hypothesis Graph.wf checked by the driver). Full: '
-        'no_double_submit - in every run the submit numbers of the launches of one instance, in order over the whole '
-        'run, are exactly 1..k (distinct, consecutive; removal and re-spawning do not restart the count); the try '
-        'counters never exceed N / M; per atomic action of the model (every operation is a sequence of them, '
-        'C01.step_refines) the failed / submit-failed output of a pooled proxy becomes complete only in a state where '
-        'no execution / submission retry remains (or the proxy is revived from a history record that had it); children '
-        'of those outputs are satisfied only after the completion (C01 Inv_prereq). Partial: the bound (N+1)*(M+1) is '
-        'proved for the per-proxy retry automaton (retry_automaton_bound: guards of processMessage / releaseAndSubmit on '
-        '(execTry, subTry, phase)), NOT lifted to Sched (def retry_bound_full): the lifting needs the '
-        'ignore-messages-while-a-retry-is-lined-up guard and an environment assumption (submit failure only reported '
-        'while preparing) that the atomic actions do not carry; the judge checks the bound and "each resubmission is '
-        'preceded by a retry with a retry remaining" on every real run')
+        'proof over the Sched model (v1, intervention-free; hypothesis Graph.wf checked by the driver). Full, for all '
+        'graphs and all op lists: no_double_submit - in every run the submit numbers of the launches of one instance, in '
+        'order over the whole run, are exactly 1..k (distinct, consecutive; removal and re-spawning do not restart the '
+        'count); the try counters never exceed N / M; per atomic action of the model (every operation is a sequence of '
+        'them, C01.step_refines) the failed / submit-failed output of a pooled proxy becomes complete only in a state '
+        'where no execution / submission retry remains (or the proxy is revived from a history record that had it); '
+        'children of those outputs are satisfied only after the completion (C01 Inv_prereq). retry_bound - at most '
+        '(N+1)*(M+1) launches per instance - is proved for graphs without suicide triggers (Graph.noSui) and operation '
+        'lists that respect the environment assumption envOK2 (a failed job-submission is reported only for an instance '
+        'that is still preparing; job messages carry a submit number >= 1 and never read "submit-failed"): both '
+        'hypotheses are decidable and explicit; the proof uses the ignore-messages-while-a-retry-is-lined-up guard of '
+        '_process_message_check (per-proxy potential-function invariant over the atomic actions, plus the bound for the '
+        'bare retry automaton, retry_automaton_bound). Partial: with suicide triggers a removed-and-respawned proxy '
+        'starts with fresh try counters but keeps its submit number, so the bound is NOT proved there (def '
+        'retry_bound_full); the judge checks the bound and "each resubmission is preceded by a retry with a retry '
+        'remaining" on every real run, whatever the graph')
     technique = ('refinement of the Lean scheduler model to atomic actions + inductive invariants / launch-log relation '
                  'over all op lists + potential function on the retry automaton + trace correspondence + trace judge')
     trusted = ['the runner instrumentation (wrapper around process_message that records state before/after)']
